@@ -48,7 +48,7 @@ CLAIMED = {
             TB + "sizeof(uint_fast16_t) and the buffer address are parameters of the auto-aligned model.",
             "Lean 4 proof over executable model + exhaustive/differential correspondence with the compiled C", "DESIGN.md §6 C18, docs/C18.md"),
     "C20": ("proof",
-            "Lean theorems over a model of auth_file.c's change_password decision and write_user_data call sequence on a file-system "
+            "json_replace_* (Cjet.Cjson.TreeOps, tied to the real cJSON.c by the cjsontree harness): cJSON_ReplaceItemInObject — the call change_password swaps the password member with — replaces the first answering member in place; with its key copy unchecked (cJSON 1.7.13 as shipped) a failed allocation stripped the member's name and lost the password (finding F69, repaired; the code as repaired changes nothing on failure). Lean theorems over a model of auth_file.c's change_password decision and write_user_data call sequence on a file-system "
             "model with short writes, errors and crash points: change_authorised, refusal_order, new_authenticates_old_does_not, "
             "other_users_untouched, step_changes_authorised, short_writes_complete, window_holds_prefix_of_new; crash atomicity is FALSE "
             "for the code as it is (truncate-then-write): update_counterexample (decide) + update_crash_atomic_partial outside the window; "
